@@ -16,6 +16,7 @@ import ast
 import os
 
 from harness import c10_models as cm
+from harness import c10_pynorm as cpn
 from harness.common import cbool, clist, copt, cstr, cz
 
 HELPERS = {"_get_input": ("index",), "_get_int_attribute": ("name", "default"), "_get_str_attribute": ("name", "default")}
@@ -139,8 +140,38 @@ def _literal(e):
     raise Unsupported(f"reader called with a non-literal argument: {ast.unparse(e)[:60]}")
 
 
-def _reads(tree):
-    """every call of the three readers in the module: (enclosing function, reader, literal arguments), in source order"""
+def _caller_id(fn):
+    """canonical name of a calling function: an adapter is named by its REGISTRATION (`@register(op, node_version=v,
+    up_conversion=b)` -> <op lower-case>_<v>_<v +/- 1>, the names the Coq adapter models carry), so renaming the Python
+    function is harmless; any other function keeps its name"""
+    ids = []
+    for d in fn.decorator_list:
+        if isinstance(d, ast.Call) and isinstance(d.func, ast.Name) and d.func.id == "register":
+            try:
+                names = ["opname", "domain", "node_version", "up_conversion"]
+                b = dict(zip(names, d.args))
+                for k in d.keywords:
+                    if k.arg not in names or k.arg in b:
+                        raise Unsupported("register arguments")
+                    b[k.arg] = k.value
+                if len(d.args) > 4:
+                    raise Unsupported("register arguments")
+                op, v = _literal(b["opname"]), _literal(b["node_version"])
+                dom = _literal(b["domain"]) if "domain" in b else ""
+                upv = b.get("up_conversion")
+                up = True if upv is None else upv.value if isinstance(upv, ast.Constant) and isinstance(upv.value, bool) else None
+                if dom != "" or up is None or not isinstance(op, str) or not isinstance(v, int):
+                    raise Unsupported("register arguments")
+            except (Unsupported, KeyError):
+                return fn.name
+            ids.append(f"{op.lower()}_{v}_{v + 1 if up else v - 1}")
+    return ids[0] if len(ids) == 1 else fn.name
+
+
+def _reads(tree, defs):
+    """every call of the three readers in the module: (calling function, reader, literal arguments).  Arguments are bound to the
+    reader's parameters by position or keyword; the table is SORTED (the readers are side-effect free -- their translated
+    bodies are Coq functions of the node -- so the order in which an adapter reads its attributes cannot matter)"""
     out = []
     for fn in tree.body:
         if not isinstance(fn, ast.FunctionDef) and not isinstance(fn, ast.ClassDef):
@@ -149,18 +180,30 @@ def _reads(tree):
                            key=lambda c: (c.lineno, c.col_offset)):
             if isinstance(fn, ast.ClassDef):
                 raise Unsupported(f"reader called inside class {fn.name}")
-            if call.keywords and not all(k.arg == "default" for k in call.keywords):
-                raise Unsupported(f"reader called with keywords in {fn.name}")
-            if not call.args or not isinstance(call.args[0], ast.Name):
-                raise Unsupported(f"reader not called on a plain node variable in {fn.name}")
-            args = [_literal(a) for a in call.args[1:]]
-            for k in call.keywords:
-                args.append(_literal(k.value))
             h = call.func.id
+            params = [a.arg for a in defs[h].args.args]               # the reader's own parameter names, node first
+            bound = {}
+            if len(call.args) > len(params) or any(isinstance(a, ast.Starred) for a in call.args):
+                raise Unsupported(f"{h} arguments in {fn.name}")
+            for prm, a in zip(params, call.args):
+                bound[prm] = a
+            for k in call.keywords:
+                if k.arg is None or k.arg not in params or k.arg in bound:
+                    raise Unsupported(f"{h} keyword arguments in {fn.name}")
+                bound[k.arg] = k.value
+            if params[0] not in bound or not isinstance(bound[params[0]], ast.Name):
+                raise Unsupported(f"reader not called on a plain node variable in {fn.name}")
+            args = []
+            for prm in params[1:]:
+                if prm in bound:
+                    if len(args) != params.index(prm) - 1:
+                        raise Unsupported(f"{h} arguments in {fn.name}")
+                    args.append(_literal(bound[prm]))
+            who = _caller_id(fn)
             if h == "_get_input":
                 if len(args) != 1 or not isinstance(args[0], int):
                     raise Unsupported(f"_get_input arguments in {fn.name}")
-                out.append((fn.name, f"RIn {cz(args[0])}"))
+                out.append((who, f"RIn {cz(args[0])}"))
             else:
                 if not (1 <= len(args) <= 2) or not isinstance(args[0], str):
                     raise Unsupported(f"{h} arguments in {fn.name}")
@@ -168,16 +211,16 @@ def _reads(tree):
                 if h == "_get_int_attribute":
                     if not (d is None or isinstance(d, int)):
                         raise Unsupported(f"{h} default {d!r}")
-                    out.append((fn.name, f"RInt {cstr(args[0])} {copt(d, cz)}"))
+                    out.append((who, f"RInt {cstr(args[0])} {copt(d, cz)}"))
                 else:
                     if not (d is None or isinstance(d, str)):
                         raise Unsupported(f"{h} default {d!r}")
-                    out.append((fn.name, f"RStr {cstr(args[0])} {copt(d, cstr)}"))
+                    out.append((who, f"RStr {cstr(args[0])} {copt(d, cstr)}"))
     # references to the readers that are not plain calls (aliases, functools.partial, ...) would escape the table
     n_refs = sum(1 for n in ast.walk(tree) if isinstance(n, ast.Name) and n.id in HELPERS)
     if n_refs != len(out):
         raise Unsupported(f"{n_refs} references to the readers but {len(out)} plain calls")
-    return out
+    return sorted(out)
 
 
 def regenerate_helpers(ctx):
@@ -211,10 +254,15 @@ def regenerate_helpers(ctx):
                 raise Unsupported(f"{name}: the default of `default` is {dfl}, expected None")
             if name == "_get_input" and dfl:
                 raise Unsupported(f"{name}: unexpected default")
-            rename = {arg.arg: canon for arg, canon in zip(a.args[1:], params)}
+            # normal form first (harness/c10_pynorm.py: guard clauses / `not in` / if-expressions / single-use locals /
+            # names by position), so that spellings with the same behaviour give the SAME term
+            try:
+                nfn, rename = cpn.normal_form(fn, (None,) + tuple(params))
+            except cpn.Refused as e:
+                raise Unsupported(f"{name}: {e}")
             tr = _Tr(a.args[0].arg, rename)
-            parts.append(f"Definition {GEN_NAMES[name]} : list hstmt :=\n  {tr.block(fn.body)}.")
-        reads = _reads(tree)
+            parts.append(f"Definition {GEN_NAMES[name]} : list hstmt :=\n  {tr.block(nfn.body)}.")
+        reads = _reads(tree, defs)
     except Unsupported as e:
         ctx.tie_broken("translator", "_version_converter.py:readers", f"cannot translate the attribute/input readers: {e}")
         return None
@@ -225,7 +273,7 @@ def regenerate_helpers(ctx):
             "From Coq Require Import ZArith List Bool String.\nImport ListNotations.\n"
             "Require Import OV.Version.Model OV.Version.Adapters OV.Version.Helpers.\nLocal Open Scope string_scope.\nLocal Open Scope Z_scope.\n"
             + "\n".join(parts) + "\n"
-            "(* every call of the readers: (calling function, call) in source order *)\n"
+            "(* every call of the readers: (calling function / registered adapter, call), sorted *)\n"
             "Definition gen_reads : list (string * rd) :=\n  [" + ";\n   ".join(f"({cstr(f)}, {r})" for f, r in reads) + "].\n")
     ctx.gen("VersionHelpers", text)
     return reads
